@@ -71,7 +71,9 @@ def run_property(prop, tier, repo=None, seed=0, quiet=False, facts_by_cfg=None):
 
 
 WITNESS_PROPS = {"C05": ("ProcessMessageIsPrivate", "ClusterStateIsPrivate", "NoForeignMutableCopy", "ClusterStateTypeIsPrivate", "IncHeartbeatIsPrivate"),
-                 "C12": ("LivenessEvaluationIsPrivate",), "C13": ("WatchSenderIsPrivate",)}
+                 "C12": ("LivenessEvaluationIsPrivate", "FailureDetectorIsPrivate"), "C13": ("WatchSenderIsPrivate",),
+                 "C10": ("FailureDetectorIsPrivate",), "C11": ("FailureDetectorIsPrivate",), "C15": ("ListenerRegistryIsPrivate",),
+                 "C06": ("NodeStateGcIsPrivate",), "C02": ("VerbatimStoreIsPrivate",), "C14": ("VerbatimStoreIsPrivate",)}
 
 
 def thorough_extras(prop, report):
